@@ -980,7 +980,29 @@ def gen_mod(mod, sources):
                             fc = FnC(inherits=True, props=sel.rest_props,
                                      note='no contract file: checked against the inherited trait contract only')
                     fc, tried = effective_fc(fc, ctx, toks, m)
-                    dr = splice_fn(em, toks, m, fc, ctx, ex.marks)
+                    try:
+                        n_marks = len(ex.marks)
+                        dr = splice_fn(em, toks, m, fc, ctx, ex.marks)
+                    except InfraError as e_:
+                        # the proof annotations no longer fit the body (a statement / loop / closure they are anchored to is
+                        # gone).  If only closure annotations are lost the body is still given to the verifier without them;
+                        # otherwise this function is undecided (demoted) and the rest of the unit is still verified
+                        del ex.marks[n_marks:]
+                        done = False
+                        if 'closure' in str(e_) and fc is not None and not (fc.stmts or fc.loops or fc.iters):
+                            fc3 = copy.copy(fc)
+                            fc3.closures = {}
+                            try:
+                                dr = splice_fn(em, toks, m, fc3, ctx, ex.marks)
+                                fc = fc3
+                                done = True
+                            except InfraError:
+                                del ex.marks[n_marks:]
+                        if not done:
+                            DEMOTED.add(ctx)
+                            DEMOTE_REASON[ctx] = str(e_)[:300]
+                            fc, tried = effective_fc(sel.fns.get(m.name) if not callable(sel.fns.get(m.name)) else fc, ctx, toks, m)
+                            dr = splice_fn(em, toks, m, fc, ctx, ex.marks)
                     if dr:
                         dropped_ranges.append(dr)
                     orig = [o for o in it.members if o.kind == 'fn' and o.name == m.name][0]
@@ -1008,7 +1030,15 @@ def gen_mod(mod, sources):
                 raise InfraError('contract for unknown fn in %s' % sel.anchor)
             ctx = base_ctx.replace('fn_', '')
             fc, tried = effective_fc(fc, ctx, toks, p)
-            dr = splice_fn(em, toks, p, fc, ctx, ex.marks)
+            try:
+                n_marks = len(ex.marks)
+                dr = splice_fn(em, toks, p, fc, ctx, ex.marks)
+            except InfraError as e_:
+                del ex.marks[n_marks:]
+                DEMOTED.add(ctx)
+                DEMOTE_REASON[ctx] = str(e_)[:300]
+                fc, tried = effective_fc(fc, ctx, toks, p)
+                dr = splice_fn(em, toks, p, fc, ctx, ex.marks)
             if dr:
                 dropped_ranges.append(dr)
             ex.functions.append({
